@@ -73,6 +73,11 @@ def r2(rr, repo):
             ok = bool(rets) and U(rets[0].value.elts[1].args[0]) == U(st.value) if rets and isinstance(rets[0].value.elts[1], ast.Call) and rets[0].value.elts[1].args else False
             n_ret += 1
             rr.ob('prev_id := the id of the set being returned', ok, za.mod, st, key='prev-return')
+        elif fn is za.R_recv and isinstance(st, ast.Assign) and isinstance(st.value, ast.Call) and U(st.value.func) == 'max' and any(U(a) == 'self.prev_id' for a in st.value.args):
+            # monotone by construction: prev_id := max(prev_id, <expected id> - 1) when a call gives up (timeout) after adopting a newer id
+            _, lst, idx = stmt_list_containing(st)
+            gives_up = any(isinstance(s_, ast.Return) and (s_.value is None or (isinstance(s_.value, ast.Constant) and s_.value.value is None)) for s_ in lst[idx:])
+            rr.ob('prev_id is raised monotonically (max(prev_id, expected - 1)) on the give-up exit of recv()', gives_up and any('- 1' in U(a) for a in st.value.args), za.mod, st, key='prev-timeout')
         else:
             rr.violated('unexpected store to prev_id (ids could rewind)', za.mod, st, key=f'prev-other|{qualname(st)}')
     rr.floor('stores to ZMQReceiver.prev_id', n_init + n_ret, 2, za.mod, za.R_cls)
